@@ -32,3 +32,28 @@ Proof.
   pose proof (local_keeps_base (segments (c :: k)) [] (rev root) st' E) as K. cbn [app] in K. rewrite K.
   exists (rev st'). rewrite rev_app_distr, rev_involutive. reflexivity.
 Qed.
+
+(* keys made of plain segments are neither refused nor rewritten *)
+Lemma local_stack_plain : forall p st, Forall clean_seg p -> local_stack st p = Some (rev p ++ st).
+Proof.
+  induction p as [|s r IH]; intros st Hc; [reflexivity|].
+  inversion Hc as [|? ? [H1 H2] Hr]; subst. cbn [local_stack]. rewrite H1, H2.
+  rewrite IH by assumption. cbn [rev]. now rewrite <- app_assoc.
+Qed.
+Lemma segments_head_slash : forall k, exists t, segments (47 :: k) = [] :: t.
+Proof. intros k. unfold segments. cbn [split_slash]. rewrite N.eqb_refl. eexists. reflexivity. Qed.
+Theorem plain_served root key : Forall clean_seg root -> Forall clean_seg (segments key) ->
+  file_for_key root key = Some (root ++ segments key).
+Proof.
+  intros Hr Hk. unfold file_for_key.
+  assert (L: is_local key = true).
+  { unfold is_local. destruct key as [|c k].
+    - cbn in Hk. inversion Hk as [|? ? [H1 _] _]; subst. discriminate H1.
+    - destruct (c =? 47) eqn:E.
+      + apply N.eqb_eq in E. subst c. destruct (segments_head_slash k) as [t Et]. rewrite Et in Hk.
+        inversion Hk as [|? ? [H1 _] _]; subst. discriminate H1.
+      + rewrite (local_stack_plain _ [] Hk). reflexivity. }
+  rewrite L. f_equal. unfold join. rewrite clean_abs_root by assumption. rewrite app_nil_r.
+  pose proof (local_keeps_base (segments key) [] (rev root) _ (local_stack_plain _ [] Hk)) as K. cbn [app] in K.
+  rewrite K. rewrite app_nil_r, rev_app_distr, !rev_involutive. reflexivity.
+Qed.
